@@ -474,12 +474,27 @@ fn one_point(su: &Setup, x: &[f64], which: Which, item: u64, acc: &mut Acc) -> O
     acc.evals += 1;
     match &run.outcome {
         Outcome::Panic(p) => {
+            // every coordinate is inside (0,1) and the kinematics is legal: a panic means the
+            // quantities this property speaks about were not returned at all
             acc.count("sample_panic");
-            acc.set("panic_messages", p.chars().take(100).collect());
+            acc.violate(item, "panic_at_legal_point", "sample:panic", detail(su, x, json!({"panic": p})));
             return None;
         }
         Outcome::Err(e) => {
             acc.count(&format!("sample_{}", e));
+            // a MatrixError at a point whose exactly evaluated L is harmless is not a legitimate
+            // refusal (the debug log still carries the Feynman parameters)
+            if e.starts_with("MatrixError") {
+                if let Some(lg) = logged(&run) {
+                    if lg.x.iter().all(|v| v.is_finite() && *v > 1e-100 && *v < 1e100) {
+                        if let Some(ex) = Exact::at(su, &lg.x) {
+                            if ex.kappa <= 1e6 && ex.det.is_positive() {
+                                acc.violate(item, "matrix_error_at_well_conditioned_point", "sample:matrix_error_well_conditioned", detail(su, x, json!({"error": e, "rescaled": fjv(&lg.x), "kappa_F": ex.kappa})));
+                            }
+                        }
+                    }
+                }
+            }
             return None;
         }
         Outcome::Ok(_) => {}
